@@ -417,7 +417,7 @@ static void do_step(const Step &st) {
   } else if (op == "fsopt") {        // fsopt <short_read mode | -1> <eio at the k-th read from now | -1>
     files_set_read_faults(atol(st.a[0].c_str()), st.a.size() > 1 ? atol(st.a[1].c_str()) : -1);
   } else if (op == "fsarm") {        // fsarm <n>: the disk stops at the n-th mutating file call from now
-    files_arm_stop(atol(st.a[0].c_str()));
+    files_arm_stop(atol(st.a[0].c_str()), st.a.size() > 1 && st.a[1] == "once");   // "once": a transient error, only that call fails
   } else if (op == "fsdisarm") {
     ev("fs_mut_calls %ld", files_mut_calls());
     files_arm_stop(-1);
